@@ -55,6 +55,10 @@ fn props(n: usize) -> Vec<Prop> {
         1 => vec![Prop { name: "textures".into(), value: "dQ==".into(), signature: None }],
         // a realistic signed textures property: the Store Cookie frame that carries it is several KiB long
         3 => vec![Prop { name: "textures".into(), value: "ewogICJ0aW1lc3RhbXAiIDogMTcwMDAwMDAwMDAwMCwK".repeat(40), signature: Some("c2lnbmF0dXJlLWJ5dGVzLWJhc2U2NA==".repeat(22)) }],
+        // six properties of 1000 bytes: the cookie that records them is longer than 5 KiB
+        7 => (0..6).map(|k| Prop { name: format!("property-{k}"), value: format!("{k}").repeat(1000), signature: (k % 2 == 0).then(|| "c2ln".repeat(30)) }).collect(),
+        // a dozen properties of 300 bytes
+        8 => (0..12).map(|k| Prop { name: format!("p{k}"), value: "v".repeat(300), signature: None }).collect(),
         _ => all,
     }
 }
@@ -357,6 +361,13 @@ fn specs(thorough: bool) -> Vec<Spec> {
             }
         }
     }
+    // profiles with many or large properties (whatever their size, the cookie records all of them; the second visit
+    // comes from another address, so nothing depends on whether a client can hand so large a cookie back)
+    for pr in [7usize, 8] {
+        for a in addrs {
+            v.push(Spec { ident: "ascii".into(), props: pr, target: "t".into(), addr: a.into(), secret: "64".into(), session: false, host: "name".into(), second: "other-ip".into(), stall_ms: 0, second_without_session: false, write_chunk: None });
+        }
+    }
     // presented in the second in which its age equals the expiry (2 s, real time)
     for a in addrs {
         v.push(Spec { ident: "ascii".into(), props: 1, target: "t".into(), addr: a.into(), secret: "64".into(), session: false, host: "name".into(), second: "at-expiry".into(), stall_ms: 0, second_without_session: false, write_chunk: None });
@@ -486,6 +497,42 @@ pub fn run_with(cli: Cli, extra: &dyn Fn(&Report)) -> ! {
             }
         }
         rep.set("connections_of_one_process_one_after_the_other", json!(5_000));
+    }
+    // "a session cookie with a fresh id": the ids handed out by one process never repeat - also not 256, 4 096 or
+    // 65 536 connections later (cookie-less logins as connection #1, #3, #259, #4 099 and #65 537 of a run of status
+    // exchanges; sequential section: nothing else runs in the process meanwhile)
+    {
+        let login = || {
+            let mut c = Case::default();
+            c.cfg.auth_secret = Some(b"session-id-secret".to_vec());
+            c.script = Login::default().steps();
+            let o = crate::sim::run(&c);
+            o.packets.iter().find_map(|(_, p)| match p {
+                Pkt::StoreCookie { key, payload } if key == "passage:session" => serde_json::from_slice::<Value>(payload).ok().and_then(|v| v["id"].as_str().map(String::from)),
+                _ => None,
+            })
+        };
+        let ping = |_: usize| {
+            let mut c = Case::default();
+            c.script = vec![st(When::Idle, Act::Handshake { proto: 769, host: "h".into(), port: 1, next: 1 }), st(When::Idle, Act::StatusRequest)];
+            let _ = crate::sim::run(&c);
+        };
+        let mut ids: Vec<(usize, Option<String>)> = vec![(1, login())];
+        let mut at = 1usize;
+        for next in [3usize, 259, 4_099, 65_537] {
+            par_for(next - at - 1, ping);
+            ids.push((next, login()));
+            at = next;
+        }
+        for (k, (n, id)) in ids.iter().enumerate() {
+            if id.is_none() {
+                rep.violation(Violation { key: "session-cookie-missing".into(), text: format!("connection #{n} of the process, a cookie-less login, was given no session cookie"), replay: json!({"earlier": "session-ids"}), weight: 9 });
+            }
+            if let Some((m, _)) = ids[..k].iter().find(|(_, other)| other.is_some() && other == id) {
+                rep.violation(Violation { key: "session-id-not-fresh".into(), text: format!("connection #{n} of the process started a session with the id {id:?}, which connection #{m} had already been given"), replay: json!({"earlier": "session-ids"}), weight: 9 });
+            }
+        }
+        rep.set("connections_between_the_first_and_the_last_session_id", json!(65_536));
     }
     extra(&rep);
     rep.finish()
